@@ -489,6 +489,7 @@ func runnerMain() int {
 		"inconclusive":        a.inconclusive,
 		"real_vs_stub":        realStub,
 		"toolchain":           runtime.Version(),
+		"lock_granularity_yield_points_inserted": os.Getenv("VERIF_AUTOYIELD_POINTS"),
 		"known_findings_reobserved": len(knownSeen),
 	}
 	if len(a.samples) == 0 {
